@@ -247,6 +247,38 @@ func genC26(t *rapid.T) c26Case {
 	if big {
 		minOps = 6
 	}
+	if rapid.IntRange(0, 11).Draw(t, "split") == 5 {
+		// aimed shape: one destination, 8-12 events of 300-900 kB dispatched together (so the
+		// batch is split by the 5 MB limit into several sequential requests) and transport-level
+		// failures (hang-up, time-out on both attempts) scripted on whichever event heads a request.
+		c.Servers, c.MaxBatch = 1, 50
+		c.SendTimeout = int64(50 * time.Millisecond)
+		splitGen := rapid.Custom(func(t *rapid.T) c26Op {
+			op := c26Op{Op: "enq"}
+			op.Size = rapid.SampledFrom([]int{300_000, 500_000, 700_000, 700_000, 833_400, 900_000}).Draw(t, "splitsize")
+			op.Raw = rapid.Bool().Draw(t, "raw")
+			op.TS = rapid.IntRange(0, len(c26Times)-1).Draw(t, "ts")
+			op.Rate = rapid.IntRange(0, len(c26Rates)-1).Draw(t, "rate")
+			if rapid.Bool().Draw(t, "faulty") {
+				switch k := rapid.IntRange(0, 9).Draw(t, "splitfault"); {
+				case k <= 3:
+					op.A1 = &c26Resp{Kind: "hangup"}
+				case k <= 6:
+					op.A1, op.A2 = &c26Resp{Kind: "timeout"}, &c26Resp{Kind: "timeout"}
+				case k == 7:
+					op.A1 = &c26Resp{Kind: "timeout"}
+				case k == 8:
+					op.A1 = &c26Resp{Kind: "status", Code: 500}
+				default:
+					op.A1, op.A2 = &c26Resp{Kind: "status", Code: 429, RA: "1"}, &c26Resp{Kind: "hangup"}
+				}
+			}
+			return op
+		})
+		c.Ops = rapid.SliceOfN(splitGen, 8, 12).Draw(t, "splitops")
+		c.StopAfterLast = rapid.SampledFrom([]int64{0, 0, 6 * q}).Draw(t, "stopafter")
+		return c
+	}
 	c.Ops = rapid.SliceOfN(opGen, minOps, maxOps).Draw(t, "ops")
 	c.StopAfterLast = rapid.SampledFrom([]int64{0, 0, 1, q, 4 * q, 6 * q}).Draw(t, "stopafter")
 	return c
@@ -947,6 +979,42 @@ func c26Judge(c c26Case, prep map[int]c26Prepared, obs c26Obs, res *vkit.Result)
 				res.Class("dispatched-within-2ns-of-1.25x")
 			} else if late >= bt {
 				res.Class("dispatched-in-[1.0,1.25)x")
+			}
+		}
+	}
+
+	// coverage classes: batches split by the 5 MB limit, transport-level failures, and both together
+	{
+		var firsts []c26Req // first attempts in arrival order
+		final := map[string]c26Req{}
+		for _, gk := range order {
+			g := groups[gk]
+			firsts = append(firsts, g.reqs[0])
+			final[gk] = g.reqs[len(g.reqs)-1]
+		}
+		transport := func(r c26Req) bool {
+			gk := fmt.Sprintf("%d|%s|%s|%v", r.Srv, r.Path, r.Key, r.IDs)
+			f := final[gk]
+			return f.Resp.Kind == "hangup" || f.Resp.Kind == "timeout"
+		}
+		for _, r := range firsts {
+			if transport(r) {
+				res.Class("transport-level-failure(final)")
+			}
+		}
+		for i, r := range firsts {
+			for _, nx := range firsts[i+1:] {
+				if destOf(nx) != destOf(r) || len(nx.EvLens) == 0 {
+					continue
+				}
+				// nx continues r's dispatch if its first event would not have fitted into r
+				if r.PlainLen+nx.EvLens[0] > c26MaxBody-8 && nx.IDs[0] > r.IDs[len(r.IDs)-1] {
+					res.Class("dispatch-split-by-5MB")
+					if transport(r) {
+						res.Class("transport-failure-on-non-final-sub-batch")
+					}
+				}
+				break
 			}
 		}
 	}
